@@ -227,8 +227,6 @@ theorem applyRecipe_ok {le : Bool} {stream : Bytes} {r : Recipe} {S : Int} {off 
 
 
 set_option linter.unusedSimpArgs false
-theorem rMips64_val : genEnumValue "ENUM_RELOC_TYPE_MIPS" "R_MIPS_64" = some 18 := by decide +kernel
-theorem rMips64_eq : rMips64 = .ok 18 := by unfold rMips64; rw [rMips64_val]
 
 theorem obs_isRela (c : RelCfg) (rela : Bool) (e : RelEntry) : entryIsRela (observeRel c rela e) = rela := by
   cases rela <;> cases hp : c.packed <;> simp [entryIsRela, observeRel, hp, Fields.get?]
@@ -268,24 +266,27 @@ theorem chooseRecipe_spec (a : Arch) (c : RelCfg) (rela : Bool) (e : RelEntry)
     (hm : c.mips = decide (a = .mips)) :
     chooseRecipe (archString a) c.cls (observeRel c rela e) =
       if !flavourOk a rela then .error .elfRelocError
-      else if rela && (c.packed && e.type = 18 && (e.type2 ≠ 0 || e.type3 ≠ 0 || e.ssym ≠ 0)) then .error .elfRelocError
+      else if c.packed && (e.type2 ≠ 0 || e.type3 ≠ 0 || e.ssym ≠ 0) then .error .elfRelocError
       else recipeGet (recipeTable a rela) (e.type : Int) := by
   unfold chooseRecipe
   simp only [obs_isRela, obs_type, bind, Except.bind]
   cases a <;> cases rela <;> simp [archString, flavourOk, recipeTable, RelCfg.packed, hm]
-  rw [rMips64_eq]
-  simp only
-  by_cases h64 : c.cls = 64 ∧ e.type = 18
-  · have hp : c.packed = true := by simp [RelCfg.packed, h64.1, hm]
-    obtain ⟨h2, h3, h4⟩ := obs_sub c hp true e
-    have h18 : c.cls = 64 ∧ (e.type : Int) = 18 := ⟨h64.1, by omega⟩
-    simp only [h2, h3, h4, h64, h18, and_self, ↓reduceIte, true_and]
-    simp only [Int.natCast_eq_zero]
-    rw [if_pos (by rfl)]
-  · have h18 : ¬ (c.cls = 64 ∧ (e.type : Int) = 18) := by
-      intro h; exact h64 ⟨h.1, by omega⟩
-    simp only [h64, h18, ↓reduceIte, false_and]
+  · by_cases h64 : c.cls = 64
+    · have hp : c.packed = true := by simp [RelCfg.packed, h64, hm]
+      obtain ⟨h2, h3, h4⟩ := obs_sub c hp false e
+      simp only [h2, h3, h4, h64, ↓reduceIte, Int.natCast_eq_zero, true_and]
+    · simp only [h64, ↓reduceIte, false_and]
+  · by_cases h64 : c.cls = 64
+    · have hp : c.packed = true := by simp [RelCfg.packed, h64, hm]
+      obtain ⟨h2, h3, h4⟩ := obs_sub c hp true e
+      simp only [h2, h3, h4, h64, ↓reduceIte, Int.natCast_eq_zero, true_and]
+    · simp only [h64, ↓reduceIte, false_and]
 
+/-- a calc function that matches a formula is the identity exactly for `keep` -/
+theorem calcMatches_identity {nm : String} {ha rela : Bool} {fm : Formula} (h : calcMatches nm ha rela fm = true) :
+    nm = "reloc_calc_identity" ↔ fm = .keep := by
+  unfold calcMatches at h
+  split at h <;> first | (exfalso; exact Bool.false_ne_true h) | simp
 
 theorem applyWithSym_eq_std (a : Arch) (c : RelCfg) (hm : c.mips = decide (a = .mips)) (rela : Bool) (sec : Bytes)
     (e : RelEntry) (s : Nat) (hwf : WFApplyOne a c rela sec.length e = true) (hlen : sec.length < 2 ^ 63) :
@@ -296,13 +297,13 @@ theorem applyWithSym_eq_std (a : Arch) (c : RelCfg) (hm : c.mips = decide (a = .
   unfold applyWithSym applyAfterSym
   rw [chooseRecipe_spec a c rela e hm]
   simp only [WFApplyOne, Bool.and_eq_true] at hwf
-  obtain ⟨⟨⟨hrel, hunc⟩, hsub⟩, hfit⟩ := hwf
+  obtain ⟨⟨hrel, hunc⟩, hfit⟩ := hwf
   cases hf : flavourOk a rela
   · simp only [Bool.not_false, ↓reduceIte]; rfl
   · simp only [Bool.not_true, Bool.false_eq_true, ↓reduceIte]
     have hunc' : unclaimed a rela e.type = false := by simpa using hunc
-    cases hcomp : (c.packed && decide (e.type = 18) && (decide (e.type2 ≠ 0) || decide (e.type3 ≠ 0) || decide (e.ssym ≠ 0)))
-    · simp only [Bool.and_false, Bool.false_eq_true, ↓reduceIte]
+    cases hcomp : (c.packed && (decide (e.type2 ≠ 0) || decide (e.type3 ≠ 0) || decide (e.ssym ≠ 0)))
+    · simp only [Bool.false_eq_true, ↓reduceIte]
       rw [recipeGet_eq]
       cases hps : psabi a rela e.type with
       | none =>
@@ -312,7 +313,8 @@ theorem applyWithSym_eq_std (a : Arch) (c : RelCfg) (hm : c.mips = decide (a = .
         obtain ⟨w, fm⟩ := wf
         obtain ⟨en, hfind, hwd, hcm⟩ := recipe_listed hps
         obtain ⟨fn, hfn, himp, hcalc⟩ := calcMatches_sound hcm
-        simp only [hps, decide_eq_true_eq] at hfit
+        have hid := calcMatches_identity hcm
+        simp only [hps, Bool.or_eq_true, beq_iff_eq, decide_eq_true_eq] at hfit
         simp only [hfind, Option.map, bind, Except.bind, obs_offset]
         have hadd : (if (toRecipe en).hasAddend then (observeRel c rela e).getInt "r_addend" else pure 0)
             = .ok (if en.2.2.1 then e.addend else 0) := by
@@ -322,41 +324,27 @@ theorem applyWithSym_eq_std (a : Arch) (c : RelCfg) (hm : c.mips = decide (a = .
             simp [toRecipe, hh, obs_addend]
         by_cases hk : fm = .keep
         · subst hk
-          simp only [widthOk, ↓reduceIte, Bool.or_eq_true, Bool.and_eq_true, beq_iff_eq] at hwd
-          obtain ⟨hw0, hwd⟩ := hwd
-          have hb : (toRecipe en).bytesize = 1 ∨ (toRecipe en).bytesize = 2 ∨ (toRecipe en).bytesize = 4 ∨ (toRecipe en).bytesize = 8 := by
-            rcases hwd with h | h <;> simp [toRecipe, h]
-          have hoff : e.offset + (toRecipe en).bytesize ≤ sec.length := by
-            have : (toRecipe en).bytesize ≤ 8 := by rcases hwd with h | h <;> simp [toRecipe, h]
-            simp only [hw0, ↓reduceIte] at hfit; omega
-          rw [applyRecipe_ok hb hoff hlen hfn hadd, hcalc]
-          simp only [Formula.eval, ↓reduceIte]
-          rw [writeField_same _ _ _ _ hoff]
-        · simp only [widthOk, hk, ↓reduceIte, Bool.and_eq_true, beq_iff_eq, Bool.or_eq_true] at hwd
+          have hnm : (toRecipe en).calcName = "reloc_calc_identity" := hid.2 rfl
+          simp only [hnm, ↓reduceIte, pure, Except.pure]
+        · have hnm : ¬ (toRecipe en).calcName = "reloc_calc_identity" := fun h => hk (hid.1 h)
+          simp only [hnm, ↓reduceIte]
+          simp only [widthOk, hk, ↓reduceIte, Bool.and_eq_true, beq_iff_eq, Bool.or_eq_true] at hwd
           obtain ⟨hbw, hw⟩ := hwd
           have hb : (toRecipe en).bytesize = 1 ∨ (toRecipe en).bytesize = 2 ∨ (toRecipe en).bytesize = 4 ∨ (toRecipe en).bytesize = 8 := by
             show en.2.1 = 1 ∨ en.2.1 = 2 ∨ en.2.1 = 4 ∨ en.2.1 = 8
             rw [hbw]; rcases hw with ((h | h) | h) | h <;> simp [h]
-          have hw0 : w ≠ 0 := by rcases hw with ((h | h) | h) | h <;> simp [h]
           have hoff : e.offset + (toRecipe en).bytesize ≤ sec.length := by
             show e.offset + en.2.1 ≤ _
-            rw [hbw]; simp only [hw0, ↓reduceIte] at hfit; exact hfit
+            rw [hbw]
+            rcases hfit with h | h
+            · exact absurd h hk
+            · exact h
           rw [applyRecipe_ok hb hoff hlen hfn hadd, hcalc]
-          simp only [hk, ↓reduceIte]
           have hbw' : (toRecipe en).bytesize = w := hbw
           rw [hbw']
-    · simp only [Bool.and_true, ↓reduceIte]
-      simp only [Bool.and_eq_true, decide_eq_true_eq] at hcomp
-      obtain ⟨⟨hp, h18⟩, _⟩ := hcomp
-      have ha : a = .mips := by
-        simp only [RelCfg.packed, Bool.and_eq_true, decide_eq_true_eq] at hp
-        have := hp.2; rw [hm] at this; simpa using this
-      subst ha
-      cases rela
-      · simp only [Bool.false_eq_true, ↓reduceIte]
-        rw [recipeGet_eq, h18, recipe_unlisted (t := 18) hf (by rfl) (by rfl)]; rfl
-      · rfl
-
+          simp only [hk, ↓reduceIte]
+    · simp only [↓reduceIte]
+      rfl
 
 theorem doApply_rejects_sym (env : Env) (S : ElfStructs) (le : Bool) (cls : Nat) (arch : String) (data : Bytes)
     (symtab : SymTab) (stream : Bytes) (c : RelCfg) (rela : Bool) (e : RelEntry)
